@@ -251,5 +251,33 @@ func corpusScenarios() []*scenario {
 		b.add(a1, e, a2, a3)
 		res = append(res, b.sc)
 	}
+	{
+		// 16: one pooled transaction is a conflict of the incoming one for two reasons (named in its Conflicts
+		// attribute AND response to the same oracle request), same payer at its balance: its fee must be taken off
+		// the expected sum once, not twice: 100 + 100 pooled, t pays 150: 100 + 150 = 250 > 249 -> ErrConflict;
+		// with balance 250 it replaces e. Then the other direction: e2 names t2 and is pooled first.
+		b := newSB("double-reason-conflict", 4)
+		a := b.tx(0, 100, []int{2}, nil, -1, false)
+		e := b.tx(0, 100, []int{2}, nil, 7, false)
+		t := b.tx(0, 150, []int{2}, []int{e}, 7, false)
+		t2 := b.tx(0, 150, []int{3}, nil, 8, false)
+		a2 := b.tx(0, 100, []int{3}, nil, -1, false)
+		e2 := b.tx(0, 100, []int{3}, []int{t2}, 8, false)
+		b.bal(2, 0, 249).bal(3, 0, 249)
+		b.add(a, e, t).setbal(2, 0, 250).stale(0).add(t).add(a2, e2, t2).setbal(3, 0, 250).stale(0).add(t2).add(e, e2)
+		res = append(res, b.sc)
+	}
+	{
+		// 17: the same with Notary depositors and an unrelated depositor's transaction in between; capacity 2 so that
+		// the doubly conflicting one is also the eviction candidate
+		b := newSB("double-reason-conflict-notary-full", 2)
+		e := b.tx(0, 100, []int{1, 5}, nil, 7, false)
+		x := b.tx(0, 300, []int{1, 6}, nil, -1, false)
+		t := b.tx(0, 200, []int{1, 5}, []int{e}, 7, false)
+		lo := b.tx(0, 50, []int{1, 5}, []int{e}, 7, false) // lower fee than the pooled response, also names it
+		b.bal(1, 5, 299).bal(1, 6, 300)
+		b.add(e, x, lo, t).setbal(1, 5, 300).stale(0).add(t, e, lo)
+		res = append(res, b.sc)
+	}
 	return res
 }
